@@ -160,6 +160,14 @@ func (g *termGen) mutate(t *gt, d int) *gt {
 	for i, a := range t.args {
 		args[i] = g.mutate(a, d-1)
 	}
+	// the same name with another arity (f/2 against f/3) must not unify
+	if t.s != "." && g.r.Intn(14) == 0 {
+		if len(args) > 1 && g.r.Intn(2) == 0 {
+			args = args[:len(args)-1]
+		} else {
+			args = append(args, g.term(d-1))
+		}
+	}
 	return gApp(t.s, args...)
 }
 
@@ -179,7 +187,31 @@ func genC02Unify(r *rand.Rand, n int, tier string) []string {
 		if r.Intn(2) == 0 {
 			x, y = y, x
 		}
-		mode := pick(r, []string{"u", "u", "r", "o", "o", "f", "h"})
+		mode := pick(r, []string{"u", "u", "r", "o", "o", "f", "h", "h"})
+		// clause heads whose argument is a string (double-quoted text: charList / codeList, compiled to a
+		// get_const) against the same list in every other encoding
+		strHead := mode == "h" && r.Intn(3) == 0
+		if strHead {
+			n := 1 + r.Intn(4)
+			elems := make([]*gt, n)
+			codes := r.Intn(2) == 0
+			for j := range elems {
+				if codes {
+					elems[j] = gInt(int64(97 + r.Intn(3)))
+				} else {
+					elems[j] = gAtom(pick(r, []string{"a", "b", "c", "é"}))
+				}
+			}
+			x = gList(elems, gAtom("[]"))
+			switch r.Intn(4) {
+			case 0:
+				y = g.mutate(x, 3)
+			case 1: // a partial list with the same prefix
+				y = gList(elems[:1+r.Intn(n)], gVar(r.Intn(g.nvars)))
+			default:
+				y = x
+			}
+		}
 		// Pairs on which the occurs check would fire (STO) are undefined for =/2 and can send the
 		// unchecked implementation into unbounded recursion on the cyclic bindings it created:
 		// they are only given to unify_with_occurs_check/2.
@@ -197,7 +229,11 @@ func genC02Unify(r *rand.Rand, n int, tier string) []string {
 			}
 			return string(b)
 		}
-		out = append(out, fmt.Sprintf("%s | %s | %s | %s | %s", mode, rec(), x, rec(), y))
+		rx := rec()
+		if strHead {
+			rx = pick(r, []string{"s", "c", "sc", "cs"})
+		}
+		out = append(out, fmt.Sprintf("%s | %s | %s | %s | %s", mode, rx, x, rec(), y))
 	}
 	return out
 }
